@@ -74,12 +74,12 @@ func runC04(c *Ctx, w *World, r *Report) {
 				if stripConv(side[0]) != ssa.Value(fn.Params[0]) {
 					continue
 				}
-				tab, idx, ok := asElemLoad(side[1])
-				if !ok || !isGlobal(tab, "bitmap", "Bit") {
-					bad = "the stored-level test does not use bitmap.Bit"
+				ms, ok := fa.MaskOf(side[1])
+				if !ok || ms.Kind != "bit" {
+					bad = "the stored-level test does not select one bit (bitmap.Bit[l] or 1<<l)"
 					continue
 				}
-				L := fa.Lin(idx)
+				L := ms.N
 				// height - tz
 				okI := len(L.T) == 2 && L.K == 0
 				for atom, coef := range L.T {
@@ -147,9 +147,13 @@ func runC04(c *Ctx, w *World, r *Report) {
 					} else {
 						var gotH, gotT bool
 						for _, m := range []ssa.Value{m1, m2} {
-							tab, idx, ok := asElemLoad(m)
-							if !ok || !isGlobal(tab, "bitmap", "Mask") {
-								badF = "mask halves are not taken from bitmap.Mask"
+							ms, ok := fa.MaskOf(m)
+							idx := ssa.Value(nil)
+							if ok && ms.Kind == "low" {
+								idx = fa.AtomValueOfLin(ms.N)
+							}
+							if idx == nil {
+								badF = "mask halves are not low-bits masks (bitmap.Mask[n] or (1<<n)-1)"
 								continue
 							}
 							if heightIs(idx) {
@@ -186,9 +190,11 @@ func runC04(c *Ctx, w *World, r *Report) {
 						var hasTo, hasFull bool
 						for _, s := range resolvePhi(tphi) {
 							L := fa.Lin(s)
-							if tab, idx, ok := asElemLoad(s); ok && isGlobal(tab, "bitmap", "Bit") && heightIs(idx) {
-								hasFull = true
-								continue
+							if ms, ok := fa.MaskOf(s); ok && ms.Kind == "bit" {
+								if idx := fa.AtomValueOfLin(ms.N); idx != nil && heightIs(idx) {
+									hasFull = true
+									continue
+								}
 							}
 							okTo := L.K == 1 && len(L.T) == 1
 							for a2, coef := range L.T {
